@@ -28,6 +28,7 @@ def bounds(tier):
             "ffd/bfd": f"all multisets of 1..{7 if q else 8} items over 0..B for B in (6,12)",
             "long-thin": "partition: 9..15(24) items over {1,2}, 9..12(16) over {1,2,3}, 9..11(13) over {0,1,5},{2,3,7}, bins {2,3,4,5,7,n,n+1}; packing: 9..14(24) items over {1,2} B=5, {1,2,3} B=7, {2,3,5} B=10, {0,1,4} B=4 in 6 fixed orders; the same multisets as covers with B+2 and 3B",
             "big": "partition values {0,1,2**24+1,2**31+1,2**32+3,2**40+5}; packing B=2**32 letters {1,2**31-1,2**31,2**31+1,2**32-1,2**32} (and divided by 2**32, B=1); covers B in {2**32, 2**32+2, 3*2**31} with letters next to B/3, B/2",
+            "count-sweep": f"every number of bins: packing inputs needing exactly m bins and covers filling exactly m bins for every m in 1..{40 if q else 140}; partition into every k in 1..{24 if q else 70} with k-1, k, k+1, 2k+1 items",
             "planted covers": "B=12,13,9,101,99: every unordered pair of patterns x multiplicities (40,24)" + ("" if q else ",(100,20),(7,150)") + " (up to ~600 items)",
             "covers": f"all multisets of 1..{6 if q else 7} items over 1..B+3 for B in (6,12) + 1..{8 if q else 10} items over (1,2,3,4,6) B=12 and (1,2,3) B=6"}
 
@@ -72,6 +73,12 @@ def tasks(tier):
         letters = (1, 2, Bc // 3, Bc // 3 + 1, Bc // 2 - 1, Bc // 2, Bc // 2 + 1, Bc)
         for ch in scopes.chunk_multisets(letters, 1, 5 if q else 6, 400):
             ts.append(("cover", ch, Bc))
+    for ch in spaces.chunked((items for items, _, _ in scopes.count_sweep_packing(tier)), 12):
+        ts.append(("fit-long", ch, 10))
+    for ch in spaces.chunked((items for items, _, _ in scopes.count_sweep_cover(tier)), 12):
+        ts.append(("cover", ch, 10))
+    for ch in spaces.chunked(scopes.count_sweep_partition(tier), 20):
+        ts.append(("partition-k", ch, None))
     from .c10 import PLANT_BIG
     for Bb, lettersb in PLANT_BIG:
         pats = spaces.partitions_of(Bb, lettersb, 4)
@@ -126,6 +133,12 @@ def run_task(task):
                 for a, m in M.PARTITION_MODELS.items():
                     n = max(n, _cmp(acc, a, scopes.scramble(it), k, m))
             acc.point(nontrivial=(n >= 2))
+        elif scope == "partition-k":
+            items, k = it
+            n = 0
+            for a, m in M.PARTITION_MODELS.items():
+                n = max(n, _cmp(acc, a, items, k, m))
+            acc.point(nontrivial=(n >= 2))
         elif scope == "fit-long":
             n = 0
             for order in spaces.fixed_orders(it):
@@ -147,7 +160,7 @@ def run_task(task):
             n = max(_cmp(acc, a, it, size, m) for a, m in M.COVER_MODELS.items())
             acc.point(nontrivial=(n >= 2))
         if it == chunk[0]:
-            acc.sample({"input": [str(v) for v in it], "size": size, "scope": scope})
+            acc.sample({"input": [str(v) for v in it][:40], "size": size, "scope": scope})
     return acc
 
 
